@@ -1915,7 +1915,7 @@ func genC16(g *G, sc *Scenario, tier string, seed uint64) {
 			}
 		}
 	}
-	kinds := []string{"client", "client", "client", "client", "client", "none", "admin", "expired", "wrongkey", "wrongiss", "wrongaud", "hs256", "algnone"}
+	kinds := []string{"client", "client", "client", "client", "client", "none", "admin", "admin", "noroles", "noroles", "expired", "wrongkey", "wrongiss", "wrongaud", "hs256", "algnone"}
 	n := g.Range(15, 45)
 	for i := 0; i < n; i++ {
 		x := g.r.Float64()
